@@ -88,9 +88,27 @@ class Pipe:
                 self.res.oblige('L:thm:' + t, good, 'axioms=%s' % a if a is not None else 'theorem missing or module failed')
             self.res.coverage_extra.setdefault('axioms', {}).update({k: v for k, v in ax.items()})
         if self.res.tier == 'thorough':
-            for mod in theorems_by_module:
-                p = lib.run(['lake', 'env', 'leanchecker', mod], cwd=lib.LEAN)
-                self.res.oblige('L:leanchecker:' + mod, p.returncode == 0, p.stdout[-300:])
+            # independent re-check of the compiled modules (the property module and every Blf module it imports, transitively)
+            mods = []
+            todo = list(theorems_by_module)
+            while todo:
+                m_ = todo.pop()
+                if m_ in mods:
+                    continue
+                mods.append(m_)
+                src = os.path.join(lib.LEAN, *m_.split('.')) + '.lean'
+                if os.path.exists(src):
+                    for l in open(src):
+                        if l.startswith('import Blf'):
+                            todo.append(l.split()[1])
+                        elif l.strip() and not l.startswith('import') and not l.startswith('--'):
+                            break
+            from concurrent.futures import ThreadPoolExecutor
+            with ThreadPoolExecutor(max_workers=8) as ex:
+                rs = list(ex.map(lambda m_: (m_, lib.run(['lake', 'env', 'leanchecker', m_], cwd=lib.LEAN)), mods))
+            bad = [(m_, p.stdout[-200:]) for m_, p in rs if p.returncode != 0]
+            self.res.coverage_extra['leanchecker_modules'] = len(mods)
+            self.res.oblige('L:leanchecker', not bad, str(bad[:3]))
         return ok
 
     def harness(self, tag, srcs, flags=None):
